@@ -49,8 +49,9 @@ def find_child(
         if child.tag == child_tag:
             if id is None:
                 return (child, i)
-            child_id = child.find(f'{child_tag}ID').text
-            if child_id == id:
+            # a child without an ID tag cannot be the one that was asked for
+            child_id = child.findtext(f'{child_tag}ID')
+            if child_id is not None and child_id == id:
                 return (child, i)
     return (None, None)
 
